@@ -433,8 +433,12 @@ def _check_inverse(run, repo, world, values):
             # named exception: an override that only adds marker constants
             # and delegates the numeric path to super()
             fn = dec.methods["raw_to_value"][1]
-            rets = [n.value for n in ast.walk(fn) if isinstance(
-                n, ast.Return) and n.value is not None]
+            try:
+                rets = [p_.expr for p_ in paths.summaries(fn)
+                        if p_.kind == "return" and p_.expr is not None]
+            except paths.Unsupported:
+                rets = [n.value for n in ast.walk(fn) if isinstance(
+                    n, ast.Return) and n.value is not None]
             deleg = [r for r in rets if unparse(r) ==
                      "super().raw_to_value(raw)"]
             consts = [r for r in rets if isinstance(r, ast.Constant)]
@@ -798,7 +802,8 @@ def _check_registration_guards(run, repo, world):
     run.rule("R-MAP-GUARD", "registration refuses overlapping locations and "
              "lockable locations in banks without a lock byte")
     c = world.cls(LOC + ".MemoryBank")
-    fn = c.methods["_add_memory_value"][1]
+    fn = normalise(c.methods["_add_memory_value"][1], world, LOC, c,
+                   aliases="params")
     mod = repo.mod(LOC)
     guards = []
     for n in ast.walk(fn):
